@@ -3,3 +3,4 @@ import MimicProps.C10
 #print axioms MimicProps.C10.close_not_before_end
 #print axioms MimicProps.C10.no_close_without_init
 #print axioms MimicProps.C10.real_events_wf
+#print axioms MimicProps.C10.coroutine_skeletons
